@@ -176,6 +176,9 @@ func unitsAll(prop string, mon Monitor) func(tier string) []runner.Unit {
 				}})
 			}
 		}
+		if prop == "C02" {
+			us = append(us, ghostUnits(prop)...)
+		}
 		// long one-way transfers: one end only receives acknowledgements for more than a minute
 		// (longer than every idle timeout of the stack), no fault
 		us = append(us, runner.Unit{Name: "long-one-way", Cost: 6, Run: func(u *runner.U) {
